@@ -82,7 +82,9 @@ def run_tlc(workdir, module, cfg, workers=None, timeout=600, simulate=None, dept
     for src, dst in (files or {}).items():
         shutil.copy(src, os.path.join(workdir, dst))
     meta = os.path.join(workdir, "meta-%d" % int(time.time() * 1000))
-    cmd = ["java", "-XX:+UseParallelGC"]
+    jtmp = os.path.join(workdir, "jtmp")      # SANY/TLC unpack their standard modules into java.io.tmpdir on every run
+    os.makedirs(jtmp, exist_ok=True)
+    cmd = ["java", "-XX:+UseParallelGC", "-Djava.io.tmpdir=" + jtmp]
     if heap:
         cmd.append("-Xmx" + heap)
     cmd.append("-Xss64m")
@@ -105,6 +107,7 @@ def run_tlc(workdir, module, cfg, workers=None, timeout=600, simulate=None, dept
     cmd += (extra or [])
     cmd.append(module)
     rc, out, wall = sh(cmd, cwd=workdir, timeout=timeout)
+    shutil.rmtree(jtmp, ignore_errors=True)
     r = TLCResult()
     r.rc, r.out, r.wall, r.workdir = rc, out, wall, workdir
     try:
